@@ -26,6 +26,6 @@ CFG = dict(
                          "pdu-sent:error-report": 30, "pdu-sent:cache-reset": 15, "pdu-sent:serial-notify": 150,
                          "shape:response-with-withdraw": 60, "drop:mid-pdu": 25, "frag:bytewise": 100,
                          "trigger:soft-reset": 40, "steps:concurrent": 50, "cancel-case-judged": 8}),
-    quick=[e2("streams", "rpki::verif::c13::run", 2, 40)],
+    quick=[e2("streams", "rpki::verif::c13::run", 2, 120)],
     thorough=[e2("streams", "rpki::verif::c13::run", 8, 200)],
 )
